@@ -400,7 +400,7 @@ def boundary_cfgs(kind, r, tier):
             out.append({"k": "app", "ssrc": 2, "name": b"NAME", "padding": r.choice(pads_legal), "subtype": 1, "data": gen.r_bytes(r, dl)})
         for dl in (262128, 262132, 262136, 262140):
             for p in (0, 4, 8):
-                out.append({"k": "app", "ssrc": 3, "name": b"BIG_", "padding": p, "subtype": 0, "data": bytes(dl)})
+                out.append({"k": "app", "ssrc": 3, "name": b"BIG_", "padding": p, "subtype": 0, "data": bytes(dl), "_big": True})
     elif kind == "unknown":
         for ty in ([192, 207, 255, 0, 200, 204] if not full else range(0, 256, 3)):
             for ct in ((0, 31, 32, 33) if not full else range(0, 34)):
@@ -410,7 +410,7 @@ def boundary_cfgs(kind, r, tier):
             out.append({"k": "unknown", "type": 207, "data": gen.r_bytes(r, 4), "padding": p, "count": 1})
         for dl in (262136, 262140, 262144):
             for p in (0, 4):
-                out.append({"k": "unknown", "type": 207, "data": bytes(dl), "padding": p, "count": 0})
+                out.append({"k": "unknown", "type": 207, "data": bytes(dl), "padding": p, "count": 0, "_big": True})
     elif kind == "sdes":
         lens = range(0, 258) if full else list(range(0, 9)) + [253, 254, 255, 256]
         for vl in lens:
@@ -436,7 +436,7 @@ def boundary_cfgs(kind, r, tier):
         # total size around the limit: 1028 items of 255 bytes = 264196
         big_items = [{"type": 1, "value": b"z" * 255} for _ in range(1019)]
         for extra in (0, 145, 146, 147, 148, 149, 150, 151, 152, 153, 200):
-            out.append({"k": "sdes", "padding": 0, "chunks": [{"k": "chunk", "ssrc": 1, "items": big_items + [{"type": 1, "value": b"y" * extra}]}], "_size_only": True})
+            out.append({"k": "sdes", "padding": 0, "chunks": [{"k": "chunk", "ssrc": 1, "items": big_items + [{"type": 1, "value": b"y" * extra}]}], "_size_only": True, "_big": True})
     elif kind == "fb":
         for p in pads_all:
             for fk in ("nack", "pli", "rpsi", "sli", "fir"):
@@ -459,18 +459,18 @@ def boundary_cfgs(kind, r, tier):
             for gap in (1, 15, 16, 17, 18):
                 seqs = [(base + i * gap) % 65536 for i in range(6)]
                 out.append({"k": "tfb", "mode": "borrowed", "fci": {"k": "nack", "seqs": seqs}, "padding": r.choice(pads_legal), "sender": 1, "media": 2})
-        out.append({"k": "tfb", "mode": "owned", "fci": {"k": "nack", "seqs": list(range(0, 65536, 1 if full else 5))}, "padding": 0, "sender": 1, "media": 2, "_size_only": True})
-        out.append({"k": "tfb", "mode": "owned", "fci": {"k": "nack", "seqs": list(range(0, 3000, 2)) + list(range(65000, 65536))}, "padding": 4, "sender": 1, "media": 2})
+        out.append({"k": "tfb", "mode": "owned", "fci": {"k": "nack", "seqs": list(range(0, 65536, 1 if full else 5))}, "padding": 0, "sender": 1, "media": 2, "_size_only": True, "_big": True})
+        out.append({"k": "tfb", "mode": "owned", "fci": {"k": "nack", "seqs": list(range(0, 3000, 2)) + list(range(65000, 65536))}, "padding": 4, "sender": 1, "media": 2, "_big": True})
         # FIR count limits
         for nf in ((32765, 32766, 32767) if full else (32766, 32767)):
             for p in ((0, 4, 8) if full else (0, 8)):
-                out.append({"k": "pfb", "mode": "owned", "fci": {"k": "fir", "entries": [(i, i & 0xff) for i in range(nf)]}, "padding": p, "sender": 1, "media": 2, "_size_only": True})
+                out.append({"k": "pfb", "mode": "owned", "fci": {"k": "fir", "entries": [(i, i & 0xff) for i in range(nf)]}, "padding": p, "sender": 1, "media": 2, "_size_only": True, "_big": True})
         # SLI size limit: 65533 entries = 262144 bytes
         for ns in (65532, 65533, 65534):
             for p in (0, 4):
-                out.append({"k": "pfb", "mode": "owned", "fci": {"k": "sli", "entries": [(i & 0x1fff, 1, i & 63) for i in range(ns)]}, "padding": p, "sender": 1, "media": 2, "_size_only": True})
+                out.append({"k": "pfb", "mode": "owned", "fci": {"k": "sli", "entries": [(i & 0x1fff, 1, i & 63) for i in range(ns)]}, "padding": p, "sender": 1, "media": 2, "_size_only": True, "_big": True})
         for dl in (262122, 262126, 262127, 262130, 262131):
-            out.append({"k": "pfb", "mode": "owned", "fci": {"k": "rpsi", "pt": 1, "data": bytes(dl), "overrun": 0}, "padding": 0, "sender": 1, "media": 2, "_size_only": True})
+            out.append({"k": "pfb", "mode": "owned", "fci": {"k": "rpsi", "pt": 1, "data": bytes(dl), "overrun": 0}, "padding": 0, "sender": 1, "media": 2, "_size_only": True, "_big": True})
     elif kind == "custom":
         for pt in gen.CUSTOM_PTS:
             for mn in gen.CUSTOM_MINS:
